@@ -237,6 +237,7 @@ fn many_kind(case: usize) -> Option<&'static str> {
         3 => Some("long"),
         8 => Some("split2"),
         13 => Some("args"),
+        5 | 11 => Some("exact"),
         _ => None,
     }
 }
@@ -318,8 +319,78 @@ fn gen_many(rng: &mut Rng, case: usize, kind: &'static str) -> Stream {
     Stream { bytes, expect, max_frame, eof_at_end: false, kind, cmds }
 }
 
+/// total lengths of the `exact` bursts: 512, 1024 k and 4096 k (k = 1..8), 65536 (= the buffer cap: must not overflow)
+pub const EXACT_SIZES: [usize; 16] = [512, 1024, 2048, 3072, 4096, 5120, 6144, 7168, 8192, 12288, 16384, 20480, 24576, 28672, 32768, 65536];
+
+/// `exact`: complete commands whose total length is EXACTLY `total` bytes (the tag of the last `PING <sentinel>` is
+/// padded so that it ends on the boundary), to be sent with ONE write and nothing after it: the client waits for
+/// the replies (`eof` = false) or half-closes (`eof` = true).  Every command must be answered although the last read
+/// of the server fills its scratch buffer completely, whatever size that buffer has.
+fn gen_exact(rng: &mut Rng, case: usize, total: usize, eof: bool) -> Stream {
+    // longer commands in the longer bursts (the model re-parses the rest of the chunk after every command)
+    let max_tag = if total <= 4096 { 40 } else if total <= 16384 { 400 } else { 1500 };
+    let mut bytes: Vec<u8> = vec![];
+    let mut expect = vec![];
+    let mut cmds = vec![];
+    let mut max_frame = 0usize;
+    let mut i = 0usize;
+    // length of `PING <tag of n bytes>`
+    let ping_len = |n: usize| 19 + n.to_string().len() + n;
+    loop {
+        let r = rng.below(100);
+        let (f, e): (Vec<u8>, Expect) = if r < 80 {
+            let len = rng.range(1, max_tag) as usize;
+            let tag = tag_of(rng, i, len);
+            (cmd_bytes(&[rng.pick(&["PING", "ping", "Ping"]).as_bytes(), tag.as_bytes()]), Expect::Bulk(tag))
+        } else if r < 86 {
+            (cmd_bytes(&[b"PING"]), Expect::Pong)
+        } else if r < 94 {
+            let all: [&[u8]; 8] = [b"THROTTLE", b"key", b"2", b"1", b"60", b"1", b"1", b"1"];
+            let n = rng.pick(&[1usize, 2, 3, 4, 7, 8]);
+            (cmd_bytes(&all[..n]), Expect::Error)
+        } else {
+            (cmd_bytes(&[rng.pick(&["GET", "SET", "hello"]).as_bytes(), tag_of(rng, i, 3).as_bytes()]), Expect::Error)
+        };
+        // room for the sentinel (at least 60 bytes) must remain
+        if bytes.len() + f.len() + 60 > total {
+            break;
+        }
+        max_frame = max_frame.max(f.len());
+        cmds.push((bytes.len(), bytes.len() + f.len()));
+        bytes.extend(f);
+        expect.push(e);
+        i += 1;
+    }
+    // the sentinel takes exactly what is left; lengths no tag size can produce (19 + digits + n skips one value at
+    // every power of ten) are reached with a bare PING (14 bytes) in front
+    let mut left = total - bytes.len();
+    let fit = |left: usize| (1..=left).find(|&n| ping_len(n) == left);
+    while fit(left).is_none() || fit(left).unwrap() < 30 {
+        let f = cmd_bytes(&[b"PING"]);
+        assert!(left > f.len() + 50, "cannot place the sentinel in {left} bytes");
+        cmds.push((bytes.len(), bytes.len() + f.len()));
+        bytes.extend(&f);
+        expect.push(Expect::Pong);
+        left -= f.len();
+    }
+    let n = fit(left).unwrap();
+    let mut sentinel = format!("end-of-stream-{case}-{i}-");
+    while sentinel.len() < n {
+        sentinel.push((b'a' + rng.below(26) as u8) as char);
+    }
+    sentinel.truncate(n);
+    let f = cmd_bytes(&[b"PING", sentinel.as_bytes()]);
+    max_frame = max_frame.max(f.len());
+    cmds.push((bytes.len(), bytes.len() + f.len()));
+    bytes.extend(f);
+    expect.push(Expect::Bulk(sentinel));
+    assert_eq!(bytes.len(), total);
+    Stream { bytes, expect, max_frame, eof_at_end: eof, kind: if eof { "exacteof" } else { "exact" }, cmds }
+}
+
 fn gen_stream(rng: &mut Rng, case: usize) -> Stream {
     if let Some(kind) = many_kind(case) {
+        assert!(kind != "exact");
         return gen_many(rng, case, kind);
     }
     let kind = rng.pick(&["plain", "plain", "plain", "quit", "bad", "oversize", "big", "partial", "eof", "eofmid", "plain1"]); // no "edge" frames (64513..65536 bytes): whether they overflow depends on where the kernel lets the reads fall, which the harness cannot pin down (see DESIGN §6, observations)
@@ -652,8 +723,26 @@ pub fn run(seed: u64, n: usize, out: &mut Out) {
             let _ = tr.start(handle).await;
         });
         wait_port(port).await;
+        // the `exact` slots take the burst sizes in turn, starting at a seed-chosen place: two sizes per slot, each
+        // once with the client waiting for the replies and once with a half-close after the burst
+        let mut exact_next = rng.below(EXACT_SIZES.len() as u64) as usize;
+        let mut streams: Vec<(usize, Stream)> = vec![];
         for case in 0..n {
-            let st = gen_stream(&mut rng, case);
+            if many_kind(case) == Some("exact") {
+                for _ in 0..2 {
+                    let total = EXACT_SIZES[exact_next % EXACT_SIZES.len()];
+                    exact_next += 1;
+                    for eof in [false, true] {
+                        let st = gen_exact(&mut rng, case, total, eof);
+                        streams.push((case, st));
+                    }
+                }
+            } else {
+                streams.push((case, gen_stream(&mut rng, case)));
+            }
+        }
+        for (case, st) in streams {
+            let _ = case;
             out.bump(&format!("streams_{}", st.kind));
             let mut chunkings: Vec<(&str, Vec<Vec<u8>>)> = match st.kind {
                 // cuts that are deliberately NOT aligned with the command boundaries
@@ -672,6 +761,13 @@ pub fn run(seed: u64, n: usize, out: &mut Out) {
                     ("split2", chunk_split2(&mut rng, &st.bytes, &st.cmds)),
                     ("1021", chunk_fixed(&st.bytes, 1021)),
                 ],
+                // ONE write of the whole burst (the server's last read ends exactly where the burst ends), against two
+                // chunkings whose writes are not multiples of any buffer size
+                "exact" | "exacteof" => vec![
+                    ("997", chunk_fixed(&st.bytes, rng.pick(&[997usize, 1000, 515]))),
+                    ("one-write", vec![st.bytes.clone()]),
+                    ("300..1023", chunk_sizes(&mut rng, &st.bytes, 300, 1023)),
+                ],
                 _ => vec![("random", chunk_random(&mut rng, &st.bytes, 1024)), ("nasty", chunk_nasty(&mut rng, &st.bytes))],
             };
             if !st.cmds.is_empty() {
@@ -688,7 +784,7 @@ pub fn run(seed: u64, n: usize, out: &mut Out) {
             } else {
                 chunkings.push(("1024", chunk_fixed(&st.bytes, 1024)));
             }
-            let mut results: Vec<(String, ConnResult)> = vec![];
+            let mut results: Vec<(String, ConnResult, &str)> = vec![];
             let mut hint = None;
             // the many-command kinds end with `PING <sentinel>`: once the output ends with the reply to
             // it, every earlier reply has arrived (TCP keeps the order) and the short idle period is
@@ -713,21 +809,21 @@ pub fn run(seed: u64, n: usize, out: &mut Out) {
                 if !st.cmds.is_empty() {
                     out.add(&format!("chunks_{}_{name}", st.kind), ch.len() as u64);
                 }
-                results.push((line, r));
+                results.push((line, r, name));
             }
             // C13: the result does not depend on the chunking
-            let (l0, r0) = &results[0];
-            for (l, r) in &results[1..] {
+            let (l0, r0, n0) = &results[0];
+            for (l, r, nm) in &results[1..] {
                 if r != r0 && st.max_frame <= 64512 {
                     out.violation(
                         "C13",
-                        format!("same byte stream, different chunking: {} bytes written / {} versus {} bytes written / {}", r0.written.len(), r0.end, r.written.len(), r.end),
+                        format!("same byte stream ({} bytes, kind {}), different chunking: {} bytes written / {} (chunking {n0}) versus {} bytes written / {} (chunking {nm})", st.bytes.len(), st.kind, r0.written.len(), r0.end, r.written.len(), r.end),
                         vec![short(l0), short(l)],
                     );
                 }
             }
             // C10: one reply per command, in order
-            for (l, r) in &results {
+            for (l, r, nm) in &results {
                 if st.kind == "edge" {
                     break;
                 }
@@ -747,7 +843,7 @@ pub fn run(seed: u64, n: usize, out: &mut Out) {
                 if !ok {
                     out.violation(
                         "C10",
-                        format!("{} replies decoded ({} of {} bytes), expected {} replies in command order (stream kind {})", vals.len(), used, r.written.len(), st.expect.len(), st.kind),
+                        format!("{} replies decoded ({} of {} bytes), expected {} replies in command order (stream kind {}, {} bytes, chunking {nm})", vals.len(), used, r.written.len(), st.expect.len(), st.kind, st.bytes.len()),
                         vec![short(l)],
                     );
                 }
@@ -756,17 +852,31 @@ pub fn run(seed: u64, n: usize, out: &mut Out) {
                     "quit" => "quit",
                     "bad" => "error",
                     "oversize" => "overflow",
-                    "eof" | "eofmid" => "eof",
+                    "eof" | "eofmid" | "exacteof" => "eof",
                     _ => "open",
                 };
                 if r.end != want_end {
                     let prop = if st.kind == "big" || st.kind == "oversize" { "C13" } else { "C10" };
-                    out.violation(prop, format!("connection ended '{}' where '{}' is expected (stream kind {})", r.end, want_end, st.kind), vec![short(l)]);
+                    out.violation(prop, format!("connection ended '{}' where '{}' is expected (stream kind {}, {} bytes, chunking {nm})", r.end, want_end, st.kind, st.bytes.len()), vec![short(l)]);
                 }
             }
             out.note_case(&format!("{}:{}", st.kind, st.bytes.len()));
             if out.samples.len() < 4 && st.bytes.len() < 120 {
                 out.sample(format!("{} -> {}", results[0].0, results[0].1.show()));
+            }
+        }
+        // the slow reader (no model line): back-pressure on the reply direction of one connection.  The client is two
+        // OS threads; this task keeps yielding so that the server - same single-threaded runtime - runs
+        for k in 0..1 + n / 200 {
+            let plan = Arc::new(crate::slow::plan(&mut rng, &format!("{seed}-{k}")));
+            let p2 = Arc::clone(&plan);
+            let h = std::thread::spawn(move || crate::slow::run_blocking(port, &p2));
+            while !h.is_finished() {
+                tokio::time::sleep(Duration::from_millis(2)).await;
+            }
+            match h.join() {
+                Ok(o) => crate::slow::report(out, &plan, &o, "conn: in-process RedisTransport on a current-thread runtime, actor queue 4"),
+                Err(_) => out.violation("C10", "slow reader: the client thread panicked".into(), vec![]),
             }
         }
     });
